@@ -42,7 +42,7 @@ impl<'c, 'r, C: ZCol> Visitor<C> for V<'c, 'r> {
         let kind = desc.kind();
         let case = || format!("{} translated by ({},{})", desc.text(), d.x, d.y);
         let bb = x.bbox();
-        let budget = (bb.size.width as u64 + 300) * (bb.size.height as u64 + 300) * 8 + 4096;
+        let budget = (bb.size.width as u64 + 300) * (bb.size.height as u64 + 300) * 8 + 4096 + desc.overlap_allowance();
         let (m0, r0, o0) = render::<C, D>(x, budget);
         let xt = x.translated(d);
         let (m1, r1, o1) = render::<C, D>(&xt, budget);
